@@ -136,14 +136,23 @@ Expected(rec, r) ==
          regionPay |-> reg.xpay]
 
 (* ex == [exc, rec, seq, raw, pairs] : the reloaded region file; parent == the record before writing; pseq its bases *)
+(* the numbers as written in the file (readable even when the file cannot be loaded) *)
+FileNumbersFailed(raw) ==
+    (IF Rng(raw.protos) # 1..Len(raw.protos) \/ Rng(raw.cands) # 1..Len(raw.cands) \/ Rng(raw.subs) # 1..Len(raw.subs)
+     THEN {"file_numbers_areas_from_1"} ELSE {})
+    \cup (IF ~(Rng(raw.region_cands) \subseteq Rng(raw.cands) /\ Rng(raw.region_subs) \subseteq Rng(raw.subs)
+               /\ Rng(raw.cores) \subseteq Rng(raw.protos)
+               /\ \A i \in DOMAIN raw.cand_protos : Rng(raw.cand_protos[i]) \subseteq Rng(raw.protos))
+          THEN {"file_cross_references_use_the_new_numbers"} ELSE {})
+
 ExtractFailed(parent, pseq, r, ex) ==
-    IF ex.exc # "" THEN {"file_loads_again:" \o ex.exc}
+    IF ex.exc # "" THEN {"file_loads_again:" \o ex.exc} \cup FileNumbersFailed(ex.raw)
     ELSE
     LET want == Expected(parent, r)
         got == ex.rec
         rloc == parent.regions[r].loc
-        raw == ex.raw
-    IN  (IF ex.seq # ExtractSeq(pseq, rloc) THEN {"sequence_is_the_region_sequence"} ELSE {})
+    IN  FileNumbersFailed(ex.raw)
+        \cup (IF ex.seq # ExtractSeq(pseq, rloc) THEN {"sequence_is_the_region_sequence"} ELSE {})
         \cup (IF ~(want.feats \subseteq {OFeat(f, FALSE) : f \in Rng(got.feats)}) THEN {"every_feature_inside_is_present_covering_the_same_bases"} ELSE {})
         \cup (IF ~({OFeat(f, FALSE) : f \in Rng(got.feats)} \subseteq want.feats) \/ Len(got.feats) # want.nfeats THEN {"nothing_but_the_features_inside"} ELSE {})
         \cup (IF want.feats = {OFeat(f, FALSE) : f \in Rng(got.feats)} /\ want.featsDna # {OFeat(f, TRUE) : f \in Rng(got.feats)}
@@ -155,18 +164,12 @@ ExtractFailed(parent, pseq, r, ex) ==
                     THEN {"candidates_keep_their_protoclusters"} ELSE {})
                    \cup (IF Len(got.regions) # 1 THEN {"exactly_one_region"}
                          ELSE LET g == got.regions[1] IN
-                              (IF g.xpay # want.regionPay \/ ~SameLoc(g.loc, Simple(0, want.n, 1)) THEN {"region_spans_the_extract"} ELSE {})
+                              (IF ~SameLoc(g.loc, Simple(0, want.n, 1)) THEN {"region_spans_the_extract"} ELSE {})
+                              \cup (IF g.xpay # want.regionPay THEN {"region_keeps_its_products_and_rules"} ELSE {})
                               \cup (IF {OCand(got, got.cands[k]) : k \in Rng(g.cands)} # want.regionCands
                                        \/ {OSub(got.subs[k]) : k \in Rng(g.subs)} # want.regionSubs
                                     THEN {"region_has_the_same_members"} ELSE {})))
         \cup (IF ~(Numbered(got.protos) /\ Numbered(got.subs) /\ Numbered(got.cands) /\ Numbered(got.regions)) THEN {"numbered_1_to_n_in_record_order"} ELSE {})
-        (* the numbers as written in the file *)
-        \cup (IF Rng(raw.protos) # 1..Len(raw.protos) \/ Rng(raw.cands) # 1..Len(raw.cands) \/ Rng(raw.subs) # 1..Len(raw.subs)
-              THEN {"file_numbers_areas_from_1"} ELSE {})
-        \cup (IF ~(Rng(raw.region_cands) \subseteq Rng(raw.cands) /\ Rng(raw.region_subs) \subseteq Rng(raw.subs)
-                   /\ Rng(raw.cores) \subseteq Rng(raw.protos)
-                   /\ \A i \in DOMAIN raw.cand_protos : Rng(raw.cand_protos[i]) \subseteq Rng(raw.protos))
-              THEN {"file_cross_references_use_the_new_numbers"} ELSE {})
         (* base-for-base coverage of the features that can be told apart by name *)
         \cup (IF \E i \in DOMAIN ex.pairs : ~SameLoc(ex.pairs[i].new, ShiftIn(parent.L, rloc, ex.pairs[i].orig))
               THEN {"named_features_cover_the_same_bases"} ELSE {})
